@@ -72,6 +72,27 @@ def run(F, R):
                 return out
             sd, se = engine_of(d, "Engine::decode"), engine_of(e, "Engine::encode")
             ok = ok and sd == se and bool(sd) and "?" not in sd
+        elif any(re.search(r"parse_from_rfc3339$", x) for x in dc):
+            # RFC 3339 text: the formatter must not drop precision the parser would have kept (SecondsFormat::Nanos / AutoSi only)
+            fmts = set()
+            for x in F.with_nested(e):
+                for c in x.calls():
+                    if re.search(r"to_rfc3339_opts$", c.callee or "") and len(c.args) > 1:
+                        k = resolve_const(x, c.args[1])
+                        v = (k or {}).get("variant")
+                        if v is None and c.args[1][0] in ("c", "m"):
+                            for _bb, st in x.defs_of_local(c.args[1][1][0]):
+                                if st[1][0] == "agg" and st[1][1] == "adt" and st[1][2].endswith("SecondsFormat"):
+                                    v = st[1][3]
+                        fmts.add(v or "?")
+                    elif re.search(r"to_rfc3339$", c.callee or ""):
+                        fmts.add("AutoSi")
+            ok = bool(fmts) and fmts <= {"Nanos", "AutoSi"}
+            if not ok:
+                R.violation("R32.2", "cursor-pair:" + i["self"], "%s:%s" % (i["file"], i["line"]),
+                            "encode_cursor formats the timestamp with SecondsFormat %s: digits below that precision are dropped, so decode(encode(t)) != t for a "
+                            "timestamp with nanoseconds" % sorted(fmts))
+                continue
         else:
             for dp, ep in PAIRS:
                 if any(re.search(dp, x) for x in dc) and any(re.search(ep, x) for x in ec):
